@@ -134,8 +134,9 @@ class Contract:
         self.raises_.append((exc, when))
         return self
 
-    def loop(self, lid, invariant=(), decreases=None):
-        self.loops[lid] = dict(invariant=list(invariant), decreases=decreases)
+    def loop(self, lid, invariant=(), decreases=None, unfold=()):
+        """unfold: instances of DEFINITIONS (one-step unfoldings of recursive specification predicates) made available at the loop head - assumed, never checked"""
+        self.loops[lid] = dict(invariant=list(invariant), decreases=decreases, unfold=list(unfold))
         return self
 
     def ghost(self, name, typ, init):
@@ -453,6 +454,8 @@ class Engine:
             for _ in range(b):
                 r = r * x
             return r
+        if isinstance(op, ast.BitAnd) and isinstance(b, int) and b >= 0 and (b & (b + 1)) == 0:
+            return py_mod(x, z3.IntVal(b + 1))          # x & (2^k - 1) == x mod 2^k for every Python int (infinite two's complement)
         if isinstance(op, ast.LShift) and isinstance(b, int): return x * (2 ** b)
         if isinstance(op, ast.RShift) and isinstance(b, int): return floor_div(x, z3.IntVal(2 ** b))
         raise Unsupported("int op %s" % type(op).__name__)
@@ -1025,6 +1028,8 @@ class Engine:
     def assume_inv(self, st, spec):
         for inv in spec["invariant"]:
             st.assume(self.to_bool(self.ev(ast.parse(inv, mode="eval").body, st, True)))
+        for d in spec.get("unfold", ()):
+            st.assume(self.to_bool(self.ev(ast.parse(d, mode="eval").body, st, True)))
 
     def st_While(self, s, st):
         lid, spec = self.loop_spec(s)
